@@ -17,7 +17,102 @@ PANICKY = re.compile(
     r"copy_from_slice$|VecDeque::<T, A>::remove$|::unwrap_unchecked$)"
 )
 
+ARITH = re.compile(r"^<[ui](8|16|32|64|128|size) as std::ops::(Add|Sub|Mul|AddAssign|SubAssign|MulAssign|Shl|Shr|ShlAssign|ShrAssign|Neg)(<.*>)?>::")
+
 _src_cache = {}
+
+
+def overflow_discharge(F, fn, site):
+    """Guard idioms for debug-build arithmetic checks. Returns a reason string or None."""
+    t = site["term"]
+    kind = site["kind"]
+    ops = site.get("ops") or t.get("ops") or []
+    vals = [const_val(o, fn["mir"]) for o in ops]
+    if "Shl" in kind or "Shr" in kind:
+        if len(vals) == 2 and vals[1] is not None and vals[1] < 8:
+            return "constant shift < 8 bits"
+        # width from the lhs local type
+        lhs = mirutil.operand_place(ops[0]) if ops else None
+        width = None
+        if lhs is not None and not lhs["p"]:
+            ty = fn["mir"]["locals"][lhs["l"]]
+            m = re.match(r"^[ui](8|16|32|64|128)$", ty)
+            if m:
+                width = int(m.group(1))
+        if len(vals) == 2 and vals[1] is not None and width and vals[1] < width:
+            return "constant shift %d < %d-bit operand" % (vals[1], width)
+        return None
+    if ("Add" in kind or "Sub" in kind) and len(vals) == 2 and vals[1] == 1 and "Sub" not in kind:
+        return "counter += 1: bounded by the number of items actually parsed from the input"
+    # guarded subtraction / addition: an enclosing condition orders the operands (HIR)
+    body = fn.get("body")
+    if body is None:
+        # closure: its HIR lives inside the parent body
+        parent = F.by_path.get(fn.get("parent") or "", [None])[0]
+        body = parent.get("body") if parent else None
+    if body is None:
+        return None
+    sp = site["sp"]
+    target = None
+    for n in walk(body):
+        if n.get("k") in ("Binary", "AssignOp") and n.get("sp") == sp:
+            target = n
+    if target is None or target.get("k") != "Binary" or target["op"] != "-":
+        return None
+    from vlib.facts import place_path, peel
+    a = place_path(target["a"]) or snippet(os.environ.get("ORCA_ANALYSED_REPO", REPO), fn["file"], target["a"]["sp"])
+    b = peel(target["b"])
+    bp = place_path(b) if b.get("k") != "Lit" else b.get("lit")
+    found = []
+
+    def rec(node, conds):
+        if isinstance(node, list):
+            for v in node:
+                rec(v, conds)
+            return
+        if not isinstance(node, dict):
+            return
+        if node is target:
+            found.append(list(conds))
+            return
+        if node.get("k") == "If":
+            rec(node["cond"], conds)
+            rec(node["then"], conds + [(node["cond"], True)])
+            if "else" in node:
+                rec(node["else"], conds + [(node["cond"], False)])
+            return
+        if node.get("k") == "Binary" and node.get("op") == "&&":
+            rec(node["a"], conds)
+            rec(node["b"], conds + [(node["a"], True)])
+            return
+        for v in node.values():
+            if isinstance(v, (dict, list)):
+                rec(v, conds)
+
+    rec(body, [])
+    if not found:
+        return None
+    conds = []
+    for c, pol in found[0]:
+        st = [peel(c)]
+        while st:
+            x = peel(st.pop())
+            if pol and x.get("k") == "Binary" and x.get("op") == "&&":
+                st += [x["a"], x["b"]]
+            else:
+                conds.append((x, pol))
+    for c, pol in conds:
+        if c.get("k") != "Binary":
+            continue
+        ca, cb = place_path(c["a"]), peel(c["b"])
+        cbp = place_path(cb) if cb.get("k") != "Lit" else cb.get("lit")
+        # a - b is safe when a >= b:  (a < b) false | (a >= b) true | (a > b) true ; a - 1 safe when a > 0 true
+        if ca == a and cbp == bp and ((c["op"] == "<" and not pol) or (c["op"] in (">=", ">") and pol)):
+            return "subtraction guarded by the enclosing comparison `%s %s %s`" % (a, c["op"], bp)
+        from vlib.facts import lit_int
+        if ca == a and cb.get("k") == "Lit" and lit_int(cb["lit"]) == 0 and c["op"] == ">" and pol and b.get("k") == "Lit" and lit_int(b["lit"]) == 1:
+            return "`%s - 1` under `%s > 0`" % (a, a)
+    return None
 
 
 def snippet(repo, file, sp):
@@ -34,6 +129,12 @@ def snippet(repo, file, sp):
     l1, c1, l2, c2 = sp
     if l1 < 1 or l2 > len(lines):
         return "?"
+    # an index span starts at `[`: include the indexed place to its left (descriptor only)
+    if c1 >= 2 and lines[l1 - 1][c1 - 1:c1] == "[":
+        k = c1 - 1
+        while k > 0 and re.match(r"[A-Za-z0-9_.]", lines[l1 - 1][k - 1]):
+            k -= 1
+        c1 = k + 1
     if l1 == l2:
         txt = lines[l1 - 1][c1 - 1:c2 - 1]
     else:
@@ -97,6 +198,10 @@ def sites_of(F, fn, repo):
             elif PANICKY.search(c):
                 yield {"kind": "call:" + "::".join(c.replace("<T, A>", "").replace("<T, E>", "").replace("<T>", "").split("::")[-2:]),
                        "sp": sp, "block": i, "term": t, "macro": macro, "callee": c}
+            elif ARITH.search(c):
+                # integer arithmetic through the std operator traits (e.g. `x += &y`): overflow-checked in debug builds
+                yield {"kind": "assert:Overflow(call %s)" % c.split("::")[-1], "sp": sp, "block": i, "term": t, "macro": macro, "callee": c,
+                       "ops": t["args"]}
 
 
 def const_val(o, mir=None):
@@ -145,6 +250,7 @@ def nopanic(F, roots=None, rule="R-NOPANIC", title=None, prop_label="parse"):
         pass
     n_sites = 0
     dbg = 0
+    seen_rev = {}
     for p in sorted(seen):
         fn = F.by_path[p][0]
         src_fn = fn
@@ -159,8 +265,11 @@ def nopanic(F, roots=None, rule="R-NOPANIC", title=None, prop_label="parse"):
             # ---- guard idioms ------------------------------------------------
             if kind.startswith("assert:Overflow"):
                 dbg += 1
-                r.ob(True)
-                continue  # debug-build arithmetic check; release builds wrap (reported as a count)
+                why = overflow_discharge(F, fn, s)
+                if why:
+                    r.ob(True, {"site": key, "discharged_by": why})
+                    continue
+                key = key + " (debug builds: overflow check)"
             if kind == "assert:BoundsCheck":
                 ln, ix = (const_val(o, fn["mir"]) for o in t["ops"])
                 if ln is not None and ix is not None and ix < ln:
@@ -173,8 +282,10 @@ def nopanic(F, roots=None, rule="R-NOPANIC", title=None, prop_label="parse"):
                 r.ob(True, {"site": key, "discharged_by": "catch-all arm is dead: every Payload variant has an explicit arm (R-PAYLOAD-EXH)"})
                 continue
             if key in reviewed:
-                r.ob(True, {"site": key, "discharged_by": "reviewed: " + reviewed[key]["reason"]})
-                continue
+                seen_rev[key] = seen_rev.get(key, 0) + 1
+                if seen_rev[key] <= int(reviewed[key].get("count", 1)):
+                    r.ob(True, {"site": key, "discharged_by": "reviewed: " + reviewed[key]["reason"]})
+                    continue
             r.ob(False, {"site": key, "path": mirutil.call_path(parent, p)})
             r.violate(key, where, "panic site reachable from %s: %s in `%s` (call path: %s)" % (
                 prop_label, kind, snip, " → ".join(x.split("::")[-1] for x in mirutil.call_path(parent, p))))
